@@ -476,4 +476,18 @@ theorem assembleLines_sorted (cfg : Cfg) (files : List (List Stmt)) (es : List E
                 · exact predefined_good cfg p h2
               exact emitAll_sorted cfg _ _ _ hgood he (sortByAddr_sorted' _)
 
+/-- a window inside a window is cut out of it: the bytes of `s'..e'` are the bytes at offsets `s'-s ..` of the image of `s..e` -/
+theorem imageFast_subwindow (es : List Emitted) (fill : Nat) (s e s' e' : Int) (h1 : s ≤ s') (h2 : s' ≤ e' + 1) (h3 : e' ≤ e) :
+    imageFast s' (some e') fill es = ((imageFast s (some e) fill es).drop (s' - s).toNat).take (e' + 1 - s').toNat := by
+  unfold imageFast
+  simp only []
+  apply List.ext_getElem
+  · simp only [List.length_map, List.length_range, List.length_take, List.length_drop]
+    omega
+  · intro i hi1 hi2
+    simp only [List.getElem_map, List.getElem_range, List.getElem_take, List.getElem_drop]
+    congr 1
+    simp only [List.length_map, List.length_range] at hi1
+    omega
+
 end BV
